@@ -151,6 +151,38 @@ func TestC05Subsets(t *testing.T) {
 			}
 		}
 	}
+	// many chunks (beyond any pipelining window a reader may use): single chunks and
+	// pairs lost at the start, around 64 and 128, in the middle and at the end
+	for _, n := range []int{63, 64, 65, 70, 127, 129, 200} {
+		spots := []int{0, 1, 31, 62, 63, 64, 65, n / 2, 126, 127, 128, n - 2, n - 1}
+		var sets [][]int
+		for _, a := range spots {
+			if a < n {
+				sets = append(sets, []int{a})
+			}
+		}
+		for i := 0; i+3 < len(spots); i += 2 {
+			if spots[i] < n && spots[i+3] < n && spots[i] != spots[i+3] {
+				sets = append(sets, []int{spots[i], spots[i+3]})
+			}
+		}
+		for _, removed := range sets {
+			for _, op := range []string{"get", "gat", "append-get"} {
+				idx++
+				if idx%shards != shard {
+					continue
+				}
+				c := c05Subset{Chunks: n, Partial: n%2 == 1, Older: n%3 == 0, Op: op, Removed: removed}
+				msg := runC05Subset(c)
+				rec.Case(true, fmt.Sprintf("sub-large|%d|%v|%s", n, removed, op), "subset-removal-many-chunks")
+				if msg != "" {
+					p := rec.Violation("TestC05Replay", c)
+					t.Errorf("C05 subsets chunks=%d removed=%v op=%s: %s; replay %s", n, removed, op, msg, p)
+					return
+				}
+			}
+		}
+	}
 	rec.MarkExhaustive("every subset of {metadata, chunk 0..n-1} removed, n=0..6, last chunk full/partial, with/without an older longer version, ops get/gat/append-then-get")
 }
 
